@@ -97,7 +97,12 @@ def gen_ops(src, g):
 def case_strategy(draw):
     src = grammar.HypSource(draw)
     g = gen_graph(src)
-    return {"graph": g, "ops": gen_ops(src, g)}
+    case = {"graph": g, "ops": gen_ops(src, g)}
+    if g["subclass"] and src.chance(1, 2):
+        # an instance of the PARENT class is created and mutated first: what the library learns about the parent's dependants
+        # must not be applied to the subclass (which has more of them)
+        case["parent_first"] = src.pick(["x", "y"])
+    return case
 
 
 def build(g, counters):
@@ -261,6 +266,14 @@ def run_case(ctx, case):
     g = case["graph"]
     counters = {}
     M = build(g, counters)
+    if case.get("parent_first") and len(M.__mro__) > 2 and hasattr(M.__mro__[1], "__spec_class__"):
+        try:
+            p = M.__mro__[1]()
+            setattr(p, case["parent_first"], 7)
+            delattr(p, case["parent_first"])
+        except Exception:
+            pass
+        counters.clear()
     obj = M()
     model = Model(g)
     for n in g["post_init_read"]:
